@@ -634,7 +634,7 @@ class Resource(object):
         except AttributeError:
             raise ValueError('The resource requires an EObject-like object, '
                              f'but received {type(root)} instead.')
-        if root._eresource is self and root in self.contents:
+        if root._eresource is self and any(x is root for x in self.contents):
             return
         if root._eresource is not None:
             root._eresource.remove(root)
@@ -649,7 +649,12 @@ class Resource(object):
                 container.eSet(feature, None)
 
     def remove(self, root):
-        self.contents.remove(root)
+        # by identity: another root may compare equal to this one
+        index = next((i for i, x in enumerate(self.contents) if x is root),
+                     None)
+        if index is None:
+            raise ValueError('Resource.remove(x): x not in resource')
+        del self.contents[index]
         root._eresource = None
 
     def open_out_stream(self, other=None):
